@@ -827,8 +827,8 @@ func (p *MinQueriesPlanner) generateScrubFieldsWalk(step *QueryPlanStep, selecti
 
 		// look over the points in the selection
 		for _, field := range graphql.SelectedFields(targetSelection) {
-			// if the field name is what we expected
-			if field.Name == point || field.Alias == point {
+			// if the field's response key (its alias, or its name when it has none) is what we expected
+			if field.Alias == point || (field.Alias == "" && field.Name == point) {
 				// our next selection set is the fields selection set
 				targetSelection = field.SelectionSet
 
